@@ -242,13 +242,23 @@ def snapshot(wd):
         )
     out['peers'] = peers
     out['sockets'] = [(s.index, s.connected, s.closed, len(s.tx)) for s in wd.sockets]
+    out['processes'] = sorted(wd.cfg.processes)
+    out['children'] = sorted(wd.children)
     return out
+
+
+def without_processes(text: str) -> str:
+    """the same configuration with no helper program at all (no process section, no api section)"""
+    return '\n'.join(l for l in text.split('\n') if not l.startswith('process ') and not l.strip().startswith('api {'))
 
 
 def run_failure(args):
     old, new, line_idx, fault, session = args
     viols = []
-    with World(config(old)) as wd:
+    # '<session>-noproc': the running configuration has no helper program, the refused file defines one
+    noproc = session.endswith('-noproc')
+    session = session.split('-')[0]
+    with World(without_processes(config(old)) if noproc else config(old)) as wd:
         env = Env(wd, hold=30, script=[], config_name='active')
         env.step = 0
         if session == 'up':
@@ -278,9 +288,12 @@ def run_failure(args):
         if not str(wd.cfg.error) and fault != 'missing-file':
             # the mutated text happened to be a valid configuration: not a failing reload
             return [], ('accepted', fault), 0
-        for key in ('neighbors',):
+        for key in ('neighbors', 'processes', 'children'):
             if before[key] != after[key]:
-                viols.append((f'failed-reload-changed:{key}:{fault}', f'after a failed reload ({fault}, line {line_idx}) configuration.neighbors went from {before[key]} to {after[key]}'))
+                viols.append((f'failed-reload-changed:{key}:{fault}', f'after a failed reload ({fault}, line {line_idx}) {"the helper programs started" if key == "children" else "configuration." + key} went from {before[key]} to {after[key]}'))
+        if noproc:
+            # no API to talk to in this configuration: the comparison above is the whole verdict
+            return _dedup(viols), ('failed', fault, session, 'noproc'), 0
         for k, b in before['peers'].items():
             a = after['peers'].get(k)
             if a is None:
@@ -330,13 +343,17 @@ def run_failure(args):
                     want[w.nlri_key(w.nlri_ip(1, 1, '10.8.0.0', 24))] = ('2.2.2.2', None)
                     if t != want:
                         viols.append((f'reload-after-failed-one-wrong-table:{fault}', f'after a failed reload ({fault}) then the valid file, the peer holds {sorted(t)} expected {sorted(want)}'))
+    return _dedup(viols), ('failed', fault, session), 0
+
+
+def _dedup(viols):
     seen = set()
     outv = []
     for sig, what in viols:
         if sig not in seen:
             seen.add(sig)
             outv.append((sig, what))
-    return outv, ('failed', fault, session), 0
+    return outv
 
 
 def plan(tier):
@@ -376,15 +393,20 @@ def plan(tier):
                     fail.append((old, new, li, fault, sess))
         for sess in ('up', 'down'):
             fail.append((old, new, 0, 'missing-file', sess))
+        # the running configuration without any helper program, the refused file with one: every third line
+        for li in range(0, nlines, 3 if tier == 'quick' else 1):
+            for fault in FAULTS:
+                for sess in ('up-noproc', 'down-noproc'):
+                    fail.append((old, new, li, fault, sess))
     return succ, fail
 
 
 def run(ctx: core.Ctx) -> None:
     succ, fail = plan(ctx.tier)
     ctx.rule = ('successful reloads: all 256 (old, new) pairs over {A absent/x/y/x-with-other-next-hop} x {B absent/present} x {IPv6 C absent/present} with the session up; subsets with the session down, with an API route announced / announced then withdrawn, '
-                'and with neighbor-level changes (hold time -> re-establish, neighbor added, neighbor removed); failing reloads: every non-empty line of the new file in turn replaced by a garbage token, an unbalanced brace, or a value that makes a value parser raise struct.error, plus a missing file, session up and down; '
+                'and with neighbor-level changes (hold time -> re-establish, neighbor added, neighbor removed); failing reloads: every non-empty line of the new file in turn replaced by a garbage token, an unbalanced brace, or a value that makes a value parser raise struct.error, plus a missing file, session up and down, and the same faults when the running configuration has no helper program but the refused file defines one; '
                 'non-trivial = distinct (session, change, table size / fault) outcome')
-    ctx.assumptions += ['reference peer table from every UPDATE on the wire since session start', 'snapshot = neighbors, per-peer neighbor identity/hold/routes, Adj-RIB-Out cache and queues, FSM, connections']
+    ctx.assumptions += ['reference peer table from every UPDATE on the wire since session start', 'snapshot = neighbors, processes, helper programs started, per-peer neighbor identity/hold/routes, Adj-RIB-Out cache and queues, FSM, connections']
     pool = mp.Pool(min(16, os.cpu_count() or 1))
     try:
         for job, (viols, outcome, n) in zip(succ, pool.imap(run_success, succ, chunksize=4)):
